@@ -39,6 +39,11 @@ def gfactterm(src, vars_=VS):
     n = 1 + src.n(2)
     args = []
     for i in range(n):
+        if i == 0 and src.n(10) == 7:
+            # a long list (101-160 cells deep) whose far end holds variables: nesting depth is a dimension of its own
+            m = 101 + src.n(60)
+            args.append(mklist([('a', 'e')] * m + [src.pick(vars_), ('a', 'z')], src.pick(vars_) if src.n(2) else ('a', '[]')))
+            continue
         if i == 1 and src.n(2):
             args.append(args[0] if src.n(2) else src.pick(vars_))     # shared variable between arguments: d(Z,Z)
         else:
